@@ -148,7 +148,7 @@ func (w *Writer) WriteFile(bom *sbom.Document, path string) error {
 
 // Store persists a protobom document to disk using the default options
 func (w *Writer) Store(bom *sbom.Document) error {
-	return w.StoreWithOptions(bom, defaultOptions)
+	return w.StoreWithOptions(bom, w.Options)
 }
 
 // StoreWithOptions stores a protobom document using the configured storage
